@@ -525,6 +525,46 @@ def nmSeqOn (rnd : Rat → Rat) (ftol : Rat) (fuel : Nat) : NM → List ((Pt →
       | _ => obj
     r :: nmSeqOn rnd ftol fuel obj' rest
 
+/-- where the simplex argument of a run comes from.  The last three are the ALIASED calls of the
+    C++ (`m.minimize(m.current_simplex, f)`, `m.minimize(m.current_simplex[0], deltas, f)`, …: the
+    Numerical-Recipes restart idiom).  The model has value semantics: an aliased argument is simply
+    the value the object holds when the call is made. -/
+inductive Arg where
+  | simplex (pp : List Pt)
+  | own
+  | ownDeltas (deltas : Pt)
+  | ownDelta (delta : Rat)
+
+/-- the simplex a run starts from; `none` = undefined in the C++ (`current_simplex[0]` of an object
+    that has not run yet, `deltas` shorter than the point) -/
+def argSimplex (rnd : Rat → Rat) (obj : NM) : Arg → Option (List Pt)
+  | .simplex pp => some pp
+  | .own => some obj.p
+  | .ownDeltas ds =>
+    match obj.p with
+    | [] => none
+    | st :: _ => if ds.length < st.length then none else some (simplexOf rnd st ds)
+  | .ownDelta d =>
+    match obj.p with
+    | [] => none
+    | st :: _ => some (simplexOf rnd st (List.replicate st.length d))
+
+/-- one run on the object `obj` with a possibly aliased argument -/
+def runArg (rnd : Rat → Rat) (f : Pt → Rat) (obj : NM) (ftol : Rat) (fuel : Nat) (a : Arg) : Option (OutN × List EvN) :=
+  match argSimplex rnd obj a with
+  | none => none
+  | some pp => nelderMeadOn rnd f obj ftol pp fuel
+
+/-- a sequence of runs on ONE object, arguments possibly aliasing the object's own simplex -/
+def nmSeqArgs (rnd : Rat → Rat) (ftol : Rat) (fuel : Nat) : NM → List ((Pt → Rat) × Arg) → List (Option (OutN × List EvN))
+  | _, [] => []
+  | obj, (f, a) :: rest =>
+    let r := runArg rnd f obj ftol fuel a
+    let obj' := match r with
+      | some (.ok _ _ s _, _) => s
+      | _ => obj
+    r :: nmSeqArgs rnd ftol fuel obj' rest
+
 /-! ## objective language of the requests (reverse Polish, one rounding per arithmetic op) -/
 
 inductive Tok where
